@@ -212,11 +212,54 @@ class Check(PropertyCheck):
                 fails.append(Failure(bad[0], case, {"a": [str(v) for v in bad[1][:4]], "b": [str(v) for v in bad[2][:4]]}))
         return fails
 
+    def shared_carriers(self, n):
+        """straight lines fed from two text rows or two text columns: the lower edge of a row is drawn by `_`, the upper
+        edge of the next row by `‾` `¯` `▔`; the right edge of a column by `▕`, the left edge of the next by `▏`; pieces on
+        both sides overlap, contain each other, continue each other or leave gaps — in an order that is not the reading
+        order of one row. Also `-`/`─`/`━`-like mixes on one row and `|` `│` mixes in one column."""
+        r = self.rng
+        out = []
+        for _ in range(n):
+            k = r.below(4)
+            w = r.range(3, 12)
+            if k == 0:
+                # one unbroken run on one side of the carrier, one or two short runs on the other side: strictly inside it,
+                # across one of its ends, at its ends, next to it
+                L, a = r.range(3, 10), r.range(0, 3)
+                long_ch, short_ch = r.choice([("‾", "_"), ("¯", "_"), ("_", "‾"), ("▔", "_"), ("_", "¯")])
+                long_row = " " * a + long_ch * L
+                short = [" "] * (a + L + 3)
+                for _ in range(r.range(1, 2)):
+                    p0, ln = r.range(0, a + L), r.range(1, 3)
+                    for q in range(p0, min(len(short), p0 + ln)):
+                        short[q] = short_ch
+                short_row = "".join(short).rstrip()
+                rows = [short_row, long_row] if short_ch == "_" else [long_row, short_row]
+            elif k == 1:
+                top = "".join(r.choice("_ _ _" if r.chance(1, 2) else "__ ") for _ in range(w))
+                low = "".join(r.choice(r.choice(["‾ ‾‾", "¯¯ ", "▔ ▔", "‾¯ "])) for _ in range(w))
+                rows = [top.rstrip(), low.rstrip()]
+                if r.chance(1, 3):
+                    rows.append("".join(r.choice("_ ") for _ in range(w)).rstrip())
+            elif k == 2:
+                h = r.range(3, 8)
+                rows = []
+                for _ in range(h):
+                    rows.append((r.choice("▕ ▕ ") + r.choice("▏ ▏ ")).rstrip())
+            else:
+                rows = ["".join(r.choice("-─ _‾") for _ in range(w)).rstrip(),
+                        "".join(r.choice("‾¯_ -") for _ in range(w)).rstrip()]
+            t = "\n".join(rows)
+            if t.strip():
+                out.append(gen.place(t, r.below(4), r.below(3)))
+        return out
+
     def search(self, boost=1):
         fails = self.oracle_runs(self.run_cases())
         n = self.scale(1500, 25000) * boost
         texts = [gen.random_diagram(self.rng, 28, 10) for _ in range(n)] + gen.bundled_blocks()
         texts += [gen.zoo(self.rng) for _ in range(n // 4)]
+        texts += self.shared_carriers(n // 6)
         fails += self.oracle_pairs(texts)
         if fails and "run" not in fails[0].case:
             fails = [self.shrink(fails[0])] + fails[1:]
